@@ -35,6 +35,11 @@ func fixpoint(data []byte, rounds int) []V {
 			return []V{VErr("calc")}
 		}
 	}
+	return fixpointEnv(env, rounds)
+}
+
+// fixpointEnv: the feed-back rounds of fixpoint for an envelope that has just been calculated
+func fixpointEnv(env *gobl.Envelope, rounds int) []V {
 	prev, err := json.Marshal(env)
 	if err != nil {
 		return []V{VErr("marshal")}
@@ -186,6 +191,12 @@ func init() {
 			return fixpoint(a[1].S, 3)
 		case "readonly":
 			return readonly(a[1].S)
+		case "rep":
+			n := 6
+			if len(a) > 2 && a[2].I != nil && a[2].I.IsInt64() && a[2].I.Int64() > 1 {
+				n = int(a[2].I.Int64())
+			}
+			return c04Repeat(a[1].S, n)
 		case "build":
 			// document/envelope JSON -> calculated envelope JSON bytes (for cross-process comparison)
 			obj, err := gobl.Parse(a[1].S)
